@@ -63,14 +63,15 @@ def rOSel : Option Sel → String
 def rRw (showDrop : Bool) : Option Rw → String
   | none => "NONE"
   | some rw =>
-    let c0 := rOSel (rw.childs.getD 0 none)
+    let rChild : Nat → Option Sel → String := fun i c => if rw.dropped.getD i false then "!" else rOSel c
+    let c0 := rChild 0 (rw.childs.getD 0 none)
     let c1 := match rw.childs with
-      | _ :: c :: _ => rOSel c
+      | _ :: c :: _ => rChild 1 c
       | _ => "-"
     let collapse := match rw.childs with
       | some (.one _) :: _ => true
       | _ => false
-    let more := (rw.childs.drop 2).zipIdx.map (fun ci => s!";child{ci.2 + 3}={rOSel ci.1}")
+    let more := (rw.childs.drop 2).zipIdx.map (fun ci => s!";child{ci.2 + 3}={rChild (ci.2 + 2) ci.1}")
     s!"child={c0};child2={c1};keep={bool01 rw.keep};collapse={bool01 collapse}" ++ String.join more
       ++ (match rw.keys with | some k => s!";keys={rCols k}" | none => "")
       ++ (if rw.gone then ";gone=1" else "")
@@ -128,6 +129,9 @@ def handleRule (rule : String) (kv : List (String × String)) : String :=
         | _, _ => "BAD params"
     | "combinefirst" => match gc kv "frame", gc kv "other" with
         | some f, some o => rRw false (combineFirst f o p deps)
+        | _, _ => "BAD params"
+    | "opalign" => match gc kv "frame", goc kv "other" with
+        | some f, some o => rRw false (opAlign f o p deps)
         | _, _ => "BAD params"
     | "resetindex" => match gc kv "frame", getBool kv "drop", getBool kv "named" with
         | some f, some d, some n => rRw true (resetIndex f d n p deps)
